@@ -47,7 +47,8 @@ DEFAULT_RLIMIT = 150
 STRONG_SPEC = {"max", "min", "saturating_sub", "saturating_add", "checked_sub", "checked_add", "wrapping_sub", "wrapping_add",
                "len", "is_empty", "push", "extend_from_slice", "contains_key", "contains", "insert", "is_some", "is_none",
                "is_ok", "is_err", "unwrap_or", "Some", "Ok", "Err", "None", "if", "match", "let", "return", "for", "while",
-               "usize::from", "u64::from", "u32::from", "u16::from", "u128::from", "Vec::from", "to_vec"}
+               "usize::from", "u64::from", "u32::from", "u16::from", "u128::from", "Vec::from", "to_vec",
+               "vec!", "Vec::new", "Vec::with_capacity", "BTreeMap::new"}
 
 OFFLINE_ENV = {"CARGO_NET_OFFLINE": "true"}
 
@@ -837,6 +838,9 @@ def finish(prop, tier, seed, units, results, ledger, findings, fixed, pmeta, arg
                     if b0 is None or c0 is None:
                         continue
                     newc = sorted(set(c0.get("callees", [])) - set(b0.get("callees", [])) - STRONG_SPEC)
+                    # `Path::Variant(..)` / `TupleStruct(..)` (CamelCase last segment) is a constructor or a pattern, not
+                    # a function whose behaviour a contract would have to describe
+                    newc = [c for c in newc if not c.rsplit("::", 1)[-1][:1].isupper()]
                     if c0.get("closures", 0) > b0.get("closures", 0):
                         newc.append("<a new closure>")
                     if newc:
